@@ -148,6 +148,19 @@ def run_network(check, net, per_class):
 	generator = codec.Generator(net, rng, long_arrays=(check.tier == 'thorough'))
 	codecs, _ = codec.all_class_names(net)
 	exprs, expected, meta = [], [], []
+	# the members of every enumeration class carry the values the schema gives them (a value written through a NAME is the schema's value)
+	for model in net.models:
+		if codec.kind(model) != 'Enum' or not hasattr(net.module, model.name):
+			continue
+		cls = getattr(net.module, model.name)
+		check.case(f'{net.name}:enum-members', model.name)
+		declared = {value.name: value.value for value in model.values}
+		actual = {member_name: member.value for member_name, member in cls.__members__.items()}
+		if declared != actual:
+			wrong = sorted(name for name in set(declared) | set(actual) if declared.get(name) != actual.get(name))
+			check.fail(f'enum-members-differ:{net.name}:{model.name}',
+				f'{net.name}.{model.name}: members {wrong} have values {[actual.get(n) for n in wrong]}, the schema declares {[declared.get(n) for n in wrong]}',
+				{'network': net.name, 'class': model.name, 'declared': declared, 'actual': actual})
 	for name in codecs:
 		if name not in net.by_name:
 			continue
